@@ -168,6 +168,18 @@ def small_scope(ctx):
                             steps = [["build", {}], ["write", 100, 6]]
                         steps.append(["build", dict(opts)])
                         hs.append({"tag": "small-skip", "spec": spec, "steps": steps})
+        if shape == "chain":
+            # decorator stacks: {markers, @task, functools.wraps pass-through} in every order, on the first task of the chain
+            for pl in (["skip"], ["skipif_true"], ["skipif_false", "skipif_true_e"]):
+                for below in (False, True):
+                    for wrap in ("top", "mid", "bottom"):
+                        for deco in (True, False):
+                            n += 1
+                            if not full and (n % 2) and pl != ["skip"]:
+                                continue
+                            spec = mk(shape, {0: pl})
+                            spec["tasks"][0].update({"marks_below": below, "wrap": wrap, "force_decorator": deco})
+                            hs.append({"tag": "small-stack", "spec": spec, "steps": [["build", [{}, {"force": True}][n % 2]]]})
         ids = [t[0] for t in tasks]
         for tid in ids:
             for mid in ids:
@@ -204,6 +216,7 @@ def histories(ctx):
     for i in range(ctx.scale(120, 1300)):
         spec = engine.gen_spec(rng, nt=(2, 7), after_p=0.25, after_needs_prods=not (F1_KNOWN and i % 5 == 0), user_markers=True,
                                marks=(("skip", 0.12), ("skipif_true", 0.08), ("skipif_true_e", 0.04), ("skipif_false", 0.15), ("persist", 0.08)))
+        engine.vary_decorators(rng, spec)
         steps = []
         if rng.random() < 0.4:
             steps.append(["build", {}])        # some tasks already up to date
